@@ -391,6 +391,11 @@ class _Scope:
                 for nm in self.bound_names(t):
                     if _is_scalar_c(self.typ(nm)):
                         post.append(self.conv_stmt(nm, checked))
+            if len(s.targets) == 1 and isinstance(s.targets[0], ast.Name) and (self.typ(s.targets[0].id) or '').endswith('*') \
+                    and 'PyMem_Malloc' in ast.dump(s.value):
+                # name the heap block after the variable it is assigned to, so that reports are readable
+                nm = s.targets[0].id
+                return [s, ast.Expr(self.rt('tag', ast.Name(nm, ast.Load()), ast.Constant(nm)))]
             if len(s.targets) == 1 and isinstance(s.targets[0], ast.Name) and post:
                 nm = s.targets[0].id
                 s.value = self.rt('conv', ast.Constant(self.typ(nm)), s.value, ast.Constant(checked))
